@@ -32,7 +32,8 @@ SweepFlags(l) ==
   LET e == l.enum
       noted == {l.noted_cfs[k] : k \in 1..Len(l.noted_cfs)} IN
   (IF noted = SetCfs(e) THEN {} ELSE {<<"accepted-set", noted>>})
-  \cup (IF l.wrongtag0 = l.calls - 4 * Cardinality(SetCfs(e)) THEN {} ELSE {<<"outside-count", l.wrongtag0>>})
+  \* every call on a control field outside the noted ones was rejected as WrongTag(0), every call on a noted one was not
+  \cup (IF l.wrongtag0 = l.calls - l.inset_calls THEN {} ELSE {<<"outside-count", l.wrongtag0>>})
   \cup UNION {LET f == CallFlags(e, l.noted[k]) IN IF f = {} THEN {} ELSE {<<"call", k, f>>} : k \in 1..Len(l.noted)}
   \cup {<<"short", k>> : k \in {j \in 1..Len(l.short) : l.short[j].st # "err"}}
 
